@@ -218,7 +218,12 @@ def suite_reuse(rng, tier):
             [("send", l, "ok") for l in TRICKY_LABELS] + [("send", LBL_A6_LAST, "frag"), ("send", LBL_3_ABC, "small")] + \
             [("send", LBL_A6, "ptype"), ("send", LBL_Z6, "ok"), ("send", LBL_B3, "ok"), ("send", LBL_A6, "ext"), ("send", LBL_A6, "extsmall"),
              ("reset",), ("disable",), ("enable",), ("max", 1), ("max", 2), ("max", 0), ("max", 255), ("setcrc",),
-             ("fragstart", LBL_A6), ("fragstart", LBL_B3), ("fragstart", LBL_BC), ("cont",), ("cont",)]
+             ("fragstart", LBL_A6), ("fragstart", LBL_B3), ("fragstart", LBL_BC), ("cont",), ("cont",),
+             ("fragalias", LBL_B6), ("fragalias", LBL_BC),
+             # header extensions on the paths that also drive the re-use state: broadcast / explicit re-use /
+             # other label through encap_ext, complete or fragmented
+             ("send", LBL_BC, "ext"), ("send", LBL_RU, "ext"), ("send", LBL_B6, "ext"), ("send", LBL_BC, "extsmall"),
+             ("send", LBL_A6, "extfrag"), ("send", LBL_BC, "extfrag")]
     depth = 3
     seqs = list(itertools.product(alpha, repeat=depth)) if tier != "quick" else []
     nrand = 1500 if tier == "quick" else 25000
@@ -232,6 +237,18 @@ def suite_reuse(rng, tier):
     for x, c1, y, c2, z in fam:
         seq = [("send", x, "ok")] + ([c1] if c1 else []) + [("send", y, "ok")] + ([c2] if c2 else []) + [("send", z, "ok"), ("send", z, "ok")]
         seqs.append(tuple(seq))
+    # the label memory of both sides across every path a start/complete packet can take: X, then Y by that
+    # path, then X twice (the first X after a broadcast or another label must carry its full label)
+    for x in (LBL_A6, LBL_A3):
+        for y in (LBL_BC, LBL_B6, LBL_RU, x):
+            for how in ("ok", "small", "frag", "ext", "extsmall", "extfrag", "ptype"):
+                for cfg in (None, ("max", 2)):
+                    seqs.append(tuple(([cfg] if cfg else []) + [("send", x, "ok"), ("send", y, how), ("send", x, "ok"), ("send", x, "ok")]))
+    # orphans: an open train is replaced by an aliasing one; its continuation is refused, the label stays
+    for x in (LBL_A6, LBL_A3):
+        for y in (LBL_B6, LBL_BC, x):
+            seqs.append((("send", x, "ok"), ("fragstart", x), ("fragalias", y), ("cont",), ("send", x, "ok"), ("cont",), ("send", x, "ok")))
+            seqs.append((("fragstart", x), ("fragalias", y), ("cont",), ("cont",), ("send", x if y.kind == "B" else y, "ok"), ("send", x, "ok")))
     # long runs against the counter
     for mx in (1, 2, 3, 254, 255):
         seqs.append((("max", mx),) + (("send", LBL_A6, "ok"),) * (mx + 3 if mx < 10 else 260))
@@ -250,18 +267,34 @@ def suite_reuse(rng, tier):
         for a in seq:
             if a[0] == "setcrc":
                 s.enc("set_crc")
-            elif a[0] == "fragstart":
+            elif a[0] in ("fragstart", "fragalias"):
                 # a train that stays open while other packets are sent (interleaved traffic with re-use on)
+                # (frag ids on slots 0, 2, 3 of the 4-slot receiver: the plain sends use id 5, slot 1; an id
+                # is taken again only once its train is finished, so that no train is replaced by an alias —
+                # except by `fragalias`, which deliberately starts a train on an id sharing the slot of the
+                # oldest open train: that train is replaced, its continuation becomes an orphan which the
+                # receiver must refuse WITHOUT forgetting the label it remembers)
+                live = [t for t in open_trains if not t["orphan"]]
+                if a[0] == "fragalias":
+                    if not live:
+                        continue
+                    live[0]["orphan"] = True
+                    fid = live[0]["fid"] + 4
+                else:
+                    free_ids = [f for f in (20, 22, 23) if f % 4 not in [t["fid"] % 4 for t in live]]
+                    if not free_ids:
+                        continue
+                    fid = free_ids[0]
                 tp = bs_gen(n + 11 + len(open_trains), 30)
-                i = s.encap(tp, 20 + len(open_trains), 0x0800, a[1], bs_zero(18))
+                i = s.encap(tp, fid, 0x0800, a[1], bs_zero(18))
                 s.decap_if("p:%d" % s.ops[i]["reg"], of=i)
-                open_trains.append((tp, s.ops[i]["reg"]))
+                open_trains.append({"pdu": tp, "chain": s.ops[i]["reg"], "fid": fid, "orphan": False})
                 if not starve or rng.random() < 0.45:
                     s.prov(40, 0)
             elif a[0] == "cont":
                 if open_trains:
-                    tp, chain = open_trains.pop(0)
-                    j = s.encap_frag(tp, chain, bs_zero(64), cout=chain)
+                    tr = open_trains.pop(0)
+                    j = s.encap_frag(tr["pdu"], tr["chain"], bs_zero(64), cout=tr["chain"])
                     s.decap_if("p:%d" % s.ops[j]["reg"], of=j)
             elif a[0] == "send":
                 _, lab, how = a
@@ -280,9 +313,12 @@ def suite_reuse(rng, tier):
                 elif how == "extsmall":
                     exts = [(0x0301, b"\x01\x02\x03\x04")]
                     bl = 9
+                elif how == "extfrag":
+                    exts = [(0x0301, b"\x01\x02\x03\x04")]
+                    bl = 26
                 i = s.encap(pdu, 5, pt, lab, bs_zero(bl), exts=exts)
                 s.decap_if("p:%d" % s.ops[i]["reg"], of=i)
-                if how == "frag":
+                if how in ("frag", "extfrag"):
                     j = s.encap_frag(pdu, s.ops[i]["reg"], bs_zero(64), cout=s.ops[i]["reg"])
                     s.decap_if("p:%d" % s.ops[j]["reg"], of=j)
                 if not starve or rng.random() < 0.45:
@@ -466,6 +502,31 @@ def suite_states(rng, tier):
             egl = 1 + need + 4
             s.decap("h:%04x01%s%08x" % (0x7000 | egl, last.hex(), crc))
             out.append(s)
+    # a train within one fragment of 64 KiB with an extra payload-carrying fragment late in the train (the last
+    # intermediate fragment again, or a foreign one): the 16-bit guard of decap_intermediate refuses it; the
+    # end fragment — correct length and CRC for the train WITHOUT the extra fragment — must not deliver
+    for lab, lt, lbytes in ((LBL_BC, 0xa0, b""), (LBL_A6, 0x80, b"abcdef")):
+        for extra in ("dup", "foreign"):
+            s = Session("st-dup64k-%s-%s" % (lab.kind, extra))
+            s.strict = False
+            s.dec_new(1, 65536, None)
+            s.prov(65536, 0)
+            s.dec_reset()
+            first_payload = gen_bytes(800, 100)
+            chunks = [gen_bytes(8000 + k, 4094) for k in range(15)]
+            last = gen_bytes(8100, 3000)
+            data = first_payload + b"".join(chunks) + last
+            tl = len(data) + 2 + len(lbytes)
+            gl = 5 + len(lbytes) + 100
+            s.decap("h:%02x%02x01%04x0800%s%s" % (lt | (gl >> 8), gl & 0xFF, tl, lbytes.hex(), first_payload.hex()))
+            for k in range(15):
+                s.decap("h:3fff01+g:%d:4094" % (8000 + k))
+            s.decap("h:3fff01+g:%d:4094" % (8014 if extra == "dup" else 8999))
+            crc = ref_gse_crc(data, 0x0800, tl, lbytes)
+            egl = 1 + 3000 + 4
+            s.decap("h:%04x01%s%08x" % (0x7000 | egl, last.hex(), crc))
+            s.dec_newpdu()
+            out.append(s)
     # hand-built trains whose first fragment uses label re-use: conforming (total length and CRC without the
     # label) must be delivered, non-conforming (total length / CRC counting the resolved label) must not
     for lab in (LBL_A6, LBL_A3):
@@ -517,6 +578,40 @@ def suite_states(rng, tier):
                     s.decap(trig)
                 s.dec_newpdu()
                 s.decap("h:300301" + "99")
+                out.append(s)
+    # every kind of rejected start/complete packet of C08's quantifier, well formed apart from the reason of
+    # its rejection, arriving while storages are free: each rejection must leave every storage where it was
+    # (free list) or hand it back inside the error value — three in a row, then the free list is drained
+    rejects = {
+        "zero6-complete": "h:c00b0800000000000000aabbcc",
+        "zero6-first": "h:800e01000b0800000000000000aabbcc",
+        "zero3-complete": "h:d0080800000000aabbcc",
+        "reuse-complete": "h:f0050800aabbcc",
+        "reuse-first": "h:b0080100050800aabbcc",
+        "mand-complete": "h:e0050081aabbcc",
+        "mand-first": "h:a0080100050081aabbcc",
+        "oversize-complete": "h:e0160800" + "11" * 20,
+        "oversize-first": "h:a00801002a0800aabbcc",
+        "zero6-oversize-complete": "h:c01c0800000000000000" + "22" * 20,
+        "zero6-mand-complete": "h:c00b0081000000000000aabbcc",
+        "ok6-complete": "h:c00b0800010203040506aabbcc",
+        "ok3-first": "h:900b0100080800010203aabbcc",
+    }
+    for slots in (1, 2):
+        for name, pkt in rejects.items():
+            for prior in (False, True):
+                s = Session("st-reject-%d-%s-%d" % (slots, name, prior))
+                s.strict = False
+                s.dec_new(slots, 16, None)
+                for _ in range(3):
+                    s.prov(16, 0)
+                if prior:
+                    s.decap("h:c00a0800616263646566beef")     # a complete packet: the receiver remembers a label
+                    s.prov(16, 0)
+                for _ in range(3):
+                    s.decap(pkt)
+                for _ in range(4):
+                    s.dec_newpdu()
                 out.append(s)
     for r in range(30 if tier == "quick" else 300):
         s = Session("st-refill%d" % r)
@@ -855,6 +950,41 @@ def suite_frames(rng, tier):
             else:
                 s.walk("+".join("p:%d" % r for r in regs) + "+z:4")
             out.append(s)
+    # a continuation near the 4095-byte GSE length in a frame larger than 4 KiB, followed by another packet and
+    # padding: the end packet is legal up to 4090 remaining bytes (+1 frag id +4 CRC), beyond that an
+    # intermediate fragment must be produced; either way the walker must find the packets that follow
+    for n, rem in enumerate(range(4086, 4098)):
+        for mode in ("single", "walk"):
+            s = Session("bigcont%d-%s" % (rem, mode))
+            s.strict = False
+            s.twin = "bigcont%d" % rem
+            s.enc("new")
+            s.enc("disable")
+            s.dec_new(2, 5000, None)
+            for _ in range(3):
+                s.prov(5000, 0)
+            lab = (LBL_BC, LBL_A6, LBL_A3)[n % 3]
+            k0 = 20 - (7 + lab.wire_len())
+            pdu = bs_gen(7000 + rem, rem + k0)
+            # (registers are emptied first: a continuation asked for after the train is finished is no operation)
+            pre = [s.reg() for _ in range(4)]
+            for r in pre:
+                s.setreg(r, "-")
+            i = s.encap(pdu, 3, 0x0800, lab, bs_zero(20), reg=pre[0])
+            regs = [pre[0]]
+            chain = pre[0]
+            for r in pre[1:]:
+                s.encap_frag(pdu, chain, bs_zero(6000), reg=r, cout=chain)
+                regs.append(r)
+            j = s.encap(bs_gen(n + 3, 5), 1, 0x0800, LBL_BC, bs_zero(40))
+            regs.append(s.ops[j]["reg"])
+            if mode == "single":
+                for r in regs:
+                    s.decap_if("p:%d" % r)
+                s.decap("z:4")
+            else:
+                s.walk("+".join("p:%d" % r for r in regs) + "+z:4")
+            out.append(s)
     # outcome independent of following bytes
     for n in range(60 if tier == "quick" else 1000):
         s = Session("tailindep%d" % n)
@@ -881,14 +1011,23 @@ def suite_frames(rng, tier):
 def suite_recover(rng, tier):
     out = []
     for n in range(200 if tier == "quick" else 4000):
-        s = Session("recover%d" % n)
+        out.append(_recover_session(rng, "recover%d" % n, n, rng.choice([1, 2, 3]), list(range(0, 8))))
+    # receivers with one slot per frag id (or more): abandoned trains on the extreme ids, probe on the extreme ids
+    for n in range(40 if tier == "quick" else 600):
+        slots = rng.choice([255, 256, 256, 257, 300])
+        out.append(_recover_session(rng, "recoverM%d" % n, 5000 + n, slots, [0, 0, 1, 254, 255, 255, slots % 256, (slots - 1) % 256]))
+    return out
+
+
+def _recover_session(rng, name, n, slots, ids):
+    if True:
+        s = Session(name)
         s.strict = False
-        slots = rng.choice([1, 2, 3])
         maxpdu = 40
         s.enc("new")
         s.enc("disable")
         s.dec_new(slots, maxpdu, None)
-        for _ in range(rng.randrange(0, slots + 3)):
+        for _ in range(rng.randrange(0, min(slots, 3) + 3)):
             s.prov(maxpdu, 0)
         # poisoning prefix
         for _ in range(rng.randrange(5, 40)):
@@ -897,14 +1036,14 @@ def suite_recover(rng, tier):
                 ln = rng.choice([0, 1, 2, 3, 5, 9, 20, 60])
                 s.decap("g:%d:%d" % (rng.randrange(1 << 20), ln))
             elif c < 0.45:      # unfinished trains on every slot
-                fid = rng.randrange(0, 8)
+                fid = rng.choice(ids)
                 s.decap("h:a00a%02x001008006162636465" % fid)
             elif c < 0.55:
                 s.decap("h:f0030800aa")            # re-use label without context
             elif c < 0.65:
-                s.decap("h:7006%02xaa00000000" % rng.randrange(0, 8))    # end with wrong crc / unknown id
+                s.decap("h:7006%02xaa00000000" % rng.choice(ids))    # end with wrong crc / unknown id
             elif c < 0.75:
-                s.decap("h:300c%02x" % rng.randrange(0, 8) + "11" * 11)
+                s.decap("h:300c%02x" % rng.choice(ids) + "11" * 11)
             elif c < 0.85:
                 s.decap("h:e00400420102")          # unknown mandatory extension
             elif c < 0.9:
@@ -912,7 +1051,7 @@ def suite_recover(rng, tier):
             else:
                 s.prov(rng.choice([maxpdu, maxpdu, 3]), 0)
         if rng.random() < 0.35:      # the caller tops the pool up until provisioning reports it is full
-            for _ in range(slots + 3):
+            for _ in range(min(slots, 3) + 3 if slots <= 3 else 6):
                 s.prov(maxpdu, 0)
         # recovery protocol of the property: reset the label memory, make one storage available
         s.dec_reset()
@@ -920,7 +1059,7 @@ def suite_recover(rng, tier):
         kind = rng.choice(["complete", "frag"])
         pdu = bs_gen(n + 1, rng.randrange(1, maxpdu + 1))
         lab = rng.choice([LBL_A6, LBL_A3, LBL_BC])
-        fid = rng.randrange(0, 256) if rng.random() < 0.5 else rng.randrange(0, 8)   # often the id of an abandoned train
+        fid = rng.randrange(0, 256) if rng.random() < 0.5 else rng.choice(ids)   # often the id of an abandoned train
         s.expect = []
         s.expect_frag = []
         if kind == "complete":
@@ -932,8 +1071,7 @@ def suite_recover(rng, tier):
             idx = _train(s, rng, pdu, fid, 0x0800, lab, fb, [rng.choice([4, 6, 9, 20]), 100, 100])
             ds = [s.decap_if("p:%d" % s.ops[i]["reg"], of=i, probe="frag") for i in idx]
             s.expect_last = (ds, pdu, ["C16"], lab)
-        out.append(s)
-    return out
+        return s
 
 
 # ------------------------------------------------------------------------------------------------ extensions
